@@ -29,14 +29,15 @@ META["text"] = (
     "Tie: on every run the model is evaluated at binary64 inside Coq on the tree parameters exported from the compiled mjModel (body_parentid, body_pos, body_quat, mocap pose, jnt_type, jnt_pos, jnt_axis, qpos, qpos0, inertial/geom/site/camera offsets and sameframe codes) "
     "and compared with xpos, xquat, xmat, xanchor, xaxis, xipos, ximat, geom/site/cam frames, mj_jac columns (all dofs, all bodies), mj_integratePos and mj_differentiatePos of the working tree. "
     "Oracle on implementation output: rotation checks (1e-10) for body/inertial/geom/site/camera frames; mj_jac, mj_jacBody, mj_jacBodyCom, mj_jacSubtreeCom, mj_jacGeom, mj_jacSite, mj_jacSparse, mj_jacPointAxis (and camera points) against central finite differences over mj_integratePos perturbations; "
-    "object velocities and cvel against J qvel and against the finite difference of positions along qvel; mj_jacDot against the finite difference of J along qvel; equality / limit constraint rows of efc_J against finite differences of efc_pos.")
+    "object velocities (mj_objectVelocity for xbody, body, geom, site, camera, world and local orientation) and cvel against J qvel and, independently of every Jacobian, against the finite difference of the object's position and orientation along qvel - on objects attached to jointless links too; mj_jacDot against the finite difference of J along qvel; equality / limit constraint rows of efc_J against finite differences of efc_pos.")
 META["note"] = ("Trusted: Coq kernel + the standard-library real-number axioms listed in trusted_base; hand-written models Model/Kinematics.v and Model/Spatial.v; Lib/FloatFn.v (executable side); "
                 "correspondence harness (gcc, driver c07_kin.c, generator mjgen.h).")
 
 TOL = "0x1p-30"
 
 FEAT = {"FREE": 1, "BALL": 2, "SLIDE": 4, "CONTACT": 8, "EQUALITY": 16, "TENDON": 32, "LIMIT": 1 << 10, "MOCAP": 1 << 9,
-        "MULTITREE": 1 << 15, "SITE": 1 << 16, "SPRING": 1 << 12}
+        "MULTITREE": 1 << 15, "SITE": 1 << 16, "SPRING": 1 << 12,
+        "FIXED": 1 << 20}      # handled by c07_kin.c, not by mjgen.h: jointless bodies (fixed links, chains of them, static bodies) with geoms / sites / cameras
 
 
 # ------------------------------------------------------------------------------------- parsing
@@ -386,21 +387,25 @@ def oracle_jac(D):
         sc = 1 + max(abs(x) for x in exp + obs)
         if maxdiff(exp, obs) > tol * sc:
             f.append((law, {"index": idx}, exp, obs))
+    def local(R, wv):
+        return matvec(transpose(R), wv[0:3]) + matvec(transpose(R), wv[3:6])
     for b in range(nbody):
         w = jdot(D["jacBody_r_%d" % b], nv, qvel)
         v = jdot(D["jacBody_p_%d" % b], nv, qvel)
         velcmp("mj_objectVelocity(XBODY) = [jacr; jacp] qvel", b, w + v, D["vel_xbody_%d" % b])
-        velcmp("mj_objectVelocity(BODY) = [jacr; jacp](BodyCom) qvel", b, jdot(D["jacBodyCom_r_%d" % b], nv, qvel) + jdot(D["jacBodyCom_p_%d" % b], nv, qvel), D["vel_body_%d" % b])
-        R = D["xmat"][9 * b:9 * b + 9]
-        velcmp("mj_objectVelocity(XBODY, local) = xmat^T world velocity", b, matvec(transpose(R), w) + matvec(transpose(R), v), D["vel_xbody_local_%d" % b])
+        wc = jdot(D["jacBodyCom_r_%d" % b], nv, qvel) + jdot(D["jacBodyCom_p_%d" % b], nv, qvel)
+        velcmp("mj_objectVelocity(BODY) = [jacr; jacp](BodyCom) qvel", b, wc, D["vel_body_%d" % b])
+        velcmp("mj_objectVelocity(XBODY, local) = xmat^T world velocity", b, local(D["xmat"][9 * b:9 * b + 9], w + v), D["vel_xbody_local_%d" % b])
+        velcmp("mj_objectVelocity(BODY, local) = ximat^T world velocity", b, local(D["ximat"][9 * b:9 * b + 9], wc), D["vel_body_local_%d" % b])
         r = D["body_rootid"][b]
         com = D["subtree_com"][3 * r:3 * r + 3]
         arm = [com[i] - D["xpos"][3 * b + i] for i in range(3)]
         vc = [x + y for x, y in zip(v, cross(w, arm))]
-        if D["body_dofnum"][D["body_weldid"][b]] > 0 or b == 0:
-            velcmp("cvel = J qvel transported to subtree_com of the root", b, w + vc, D["cvel"][6 * b:6 * b + 6])
+        velcmp("cvel = J qvel transported to subtree_com of the root", b, w + vc, D["cvel"][6 * b:6 * b + 6])
+        # independent of every Jacobian: finite differences of the frames along qvel
         velcmp("linear velocity of the body origin = d xpos / dt along qvel (central difference)", b, fdpos("xpos", b, nv), D["vel_xbody_%d" % b][3:6], FD_TOL)
         velcmp("angular velocity of the body = rotation rate of xmat along qvel (central difference)", b, fdrot("xmat", b, nv), D["vel_xbody_%d" % b][0:3], FD_TOL)
+        velcmp("linear velocity of the body inertial frame = d xipos / dt along qvel (central difference)", b, fdpos("xipos", b, nv), D["vel_body_%d" % b][3:6], FD_TOL)
         # jacDot
         jdp, jdr = D["jacDot_p_%d" % b], D["jacDot_r_%d" % b]
         fp = [(x - y) / (2 * eps) for x, y in zip(D["PV_jac_p_%d" % b], D["MV_jac_p_%d" % b])]
@@ -414,7 +419,11 @@ def oracle_jac(D):
         for i in range(n):
             if pre == "cam" and D["cam_mode"][i] != 0:
                 continue
-            velcmp("mj_objectVelocity(%s) = [jacr; jacp] qvel" % pre, i, jdot(D["%s_r_%d" % (jn, i)], nv, qvel) + jdot(D["%s_p_%d" % (jn, i)], nv, qvel), D["vel_%s_%d" % (pre, i)])
+            wv = jdot(D["%s_r_%d" % (jn, i)], nv, qvel) + jdot(D["%s_p_%d" % (jn, i)], nv, qvel)
+            velcmp("mj_objectVelocity(%s) = [jacr; jacp] qvel" % pre, i, wv, D["vel_%s_%d" % (pre, i)])
+            velcmp("mj_objectVelocity(%s, local) = xmat^T world velocity" % pre, i, local(D[pre + "_xmat"][9 * i:9 * i + 9], wv), D["vel_%s_local_%d" % (pre, i)])
+            velcmp("linear velocity of a %s = d %s_xpos / dt along qvel (central difference)" % (pre, pre), i, fdpos(pre + "_xpos", i, nv), D["vel_%s_%d" % (pre, i)][3:6], FD_TOL)
+            velcmp("angular velocity of a %s = rotation rate of %s_xmat along qvel (central difference)" % (pre, pre), i, fdrot(pre + "_xmat", i, nv), D["vel_%s_%d" % (pre, i)][0:3], FD_TOL)
     return f
 
 
@@ -477,6 +486,7 @@ def run(ctx):
     feats = [base | FEAT["FREE"] | FEAT["BALL"] | FEAT["SLIDE"], base | FEAT["FREE"] | FEAT["BALL"] | FEAT["SLIDE"] | FEAT["MULTITREE"],
              base | FEAT["SLIDE"], base | FEAT["BALL"], base, base | FEAT["FREE"] | FEAT["BALL"] | FEAT["SLIDE"] | FEAT["MOCAP"] | FEAT["MULTITREE"],
              base | FEAT["FREE"] | FEAT["SLIDE"] | FEAT["CONTACT"]]
+    feats = [x for f in feats for x in (f | FEAT["FIXED"], f)] + [base | FEAT["FIXED"], base | FEAT["BALL"] | FEAT["SLIDE"] | FEAT["FIXED"]]
     # ---------------- correspondence (K) requests, smallest first
     kreq = []
     nk = 14 if not big else 120
@@ -495,7 +505,7 @@ def run(ctx):
     ne = 6 if not big else 40
     efeat = base | FEAT["FREE"] | FEAT["BALL"] | FEAT["SLIDE"] | FEAT["EQUALITY"] | FEAT["LIMIT"] | FEAT["TENDON"]
     for i in range(ne):
-        ereq.append((rng.randrange(1, 10 ** 6), efeat | (FEAT["MULTITREE"] if i % 2 else 0), rng.choice([2, 3, 4, 5]), 1 + i))
+        ereq.append((rng.randrange(1, 10 ** 6), efeat | (FEAT["MULTITREE"] if i % 2 else 0) | (FEAT["FIXED"] if i % 3 != 2 else 0), rng.choice([2, 3, 4, 5]), 1 + i))
     inp = "".join("K %d %d %d %d\n" % r for r in kreq) + "".join("J %d %d %d %d\n" % r for r in jreq) + "".join("E %d %d %d %d\n" % r for r in ereq) + "R\n"
     rc, out, err = ctx.run(exe, inp)
     blocks = parse_blocks(out)
@@ -516,6 +526,33 @@ def run(ctx):
                       theorem=theorem, signature={"law": key, "class": cls})
     # ---------------- oracles
     counts = {"frames": 0, "jacobian_columns": 0, "velocity_bodies": 0, "efc_rows": 0}
+    strata = {"K": {"fixed_link_under_moving_body": 0, "fixed_link_under_fixed_link": 0, "moving_body_under_fixed_link": 0, "static_body": 0, "multi_joint_body": 0, "objects_on_fixed_links": 0},
+              "J": {"fixed_link_under_moving_body": 0, "fixed_link_under_fixed_link": 0, "moving_body_under_fixed_link": 0, "static_body": 0, "multi_joint_body": 0, "objects_on_fixed_links": 0}}
+
+    def classify(D, st):
+        nb = D["nbody"][0]
+        moving = [False] * nb        # has a joint of its own or below a body that has one
+        for b in range(1, nb):
+            moving[b] = D["body_jntnum"][b] > 0 or moving[D["body_parentid"][b]]
+        for b in range(1, nb):
+            p_ = D["body_parentid"][b]
+            if D["body_jntnum"][b] == 0:
+                if not moving[b]:
+                    st["static_body"] += 1
+                elif D["body_jntnum"][p_] == 0:
+                    st["fixed_link_under_fixed_link"] += 1
+                else:
+                    st["fixed_link_under_moving_body"] += 1
+            else:
+                if p_ != 0 and D["body_jntnum"][p_] == 0 and moving[p_]:
+                    st["moving_body_under_fixed_link"] += 1
+                if D["body_jntnum"][b] > 1:
+                    st["multi_joint_body"] += 1
+        for pre in ("geom", "site", "cam"):
+            for i in range(D["n" + pre][0]):
+                bb = D[pre + "_bodyid"][i]
+                if bb > 0 and D["body_jntnum"][bb] == 0 and moving[bb]:
+                    st["objects_on_fixed_links"] += 1
     jtypes_seen = [0, 0, 0, 0]
     for req, D in list(zip(kreq, kb)) + list(zip(jreq, jb)):
         op = "K" if "jacp_0" in D else "J"
@@ -523,6 +560,7 @@ def run(ctx):
             ctx.violation("impl_violation", {"request": "%s %d %d %d %d" % ((op,) + tuple(req))}, expected="no mju_error on a compiled model", observed=D["ERR"],
                           theorem="C07_kinematics_defined", signature={"law": "no error"})
             continue
+        classify(D, strata[op])
         for (law, idx, obs) in oracle_frames(D):
             report(law, req, op, {"index": idx}, "rotation / unit (1e-10)", obs, "C07_frames")
         for (law, idx, obs) in oracle_local(D):
@@ -582,12 +620,17 @@ def run(ctx):
     ctx.cov["evaluations"] = len(cases)
     ctx.cov["distinct_nontrivial"] = nontriv
     ctx.cov["rule"] = ("one Coq evaluation per (generated tree, state, part) with part in {mj_kinematics1 outputs, mj_local2Global outputs, mj_jac of an attached point of every body, cdof, "
-                       "mj_integratePos + mj_differentiatePos}; trees from mjgen.h (all joint types, multi-tree, mocap, sites, cameras, 1..8 bodies), states: reference configuration, random, exactly-zero angles, "
+                       "mj_integratePos + mj_differentiatePos}; trees from mjgen.h (all joint types, multi-joint bodies, multi-tree, mocap, sites, cameras, 1..8 bodies) extended by c07_kin.c with jointless bodies (fixed links under moving bodies, chains of fixed links, moving bodies under fixed links, static bodies welded to the world, each with geoms / sites / cameras), states: reference configuration, random, exactly-zero angles, "
                        "angles beyond one turn, unnormalised / nearly-unit ball, free and mocap quaternions; non-trivial = tree with at least two moving bodies")
     ctx.cov["samples"] = [{"request": "K %d %d %d %d" % tuple(d[0]), "part": d[1]} for d in (descr[:1] + descr[len(descr) // 2:len(descr) // 2 + 1] + descr[-1:])]
     ctx.cov["correspondence_disagreements"] = len(fails)
     ctx.cov["support"]["oracle_counts"] = counts
     ctx.cov["support"]["joint_types_seen_free_ball_slide_hinge"] = jtypes_seen
     ctx.cov["support"]["oracle_requests"] = {"J": len(jreq), "E": len(ereq)}
+    ctx.cov["support"]["tree_strata"] = {"tie": strata["K"], "oracle": strata["J"]}
+    for grp, name in (("K", "tie"), ("J", "Jacobian / velocity oracle")):
+        for key in ("fixed_link_under_moving_body", "objects_on_fixed_links", "multi_joint_body"):
+            if strata[grp][key] == 0:
+                ctx.broken.append(("correspondence", "generator stratum '%s' was not reached by the %s" % (key, name), str(strata[grp])))
     ctx.cov["explanation"] = ("theorems of Props/C07.v proved over R; model tied to the working tree on %d evaluations over %d generated trees; finite-difference oracle on %d Jacobian columns, %d bodies' velocities, %d constraint rows"
                               % (len(cases), len(kreq), counts["jacobian_columns"], counts["velocity_bodies"], counts["efc_rows"]))
